@@ -23,6 +23,19 @@ def _kholawderive(kind, seed, elems, k):
     return node_out(b)
 
 
+def _kholawraw(priv, cc, elems, k):
+    from bip_utils import Bip32KeyData
+    b = Bip32KholawEd25519.FromPrivateKey(unhx(priv), Bip32KeyData(chain_code=unhx(cc)))
+    elems, k = unnats(elems), int(k)
+    for e in elems[:k]:
+        b = b.ChildKey(e)
+    if k < len(elems):
+        b.ConvertToPublic()
+        for e in elems[k:]:
+            b = b.ChildKey(e)
+    return node_out(b)
+
+
 def _byronaddr(seed, f, s):
     w = CardanoByronLegacy.FromSeed(unhx(seed))
     a = w.GetAddress(int(f), int(s))
@@ -45,9 +58,16 @@ def _adaseed(kind, ent):
     return hx((CardanoByronLegacySeedGenerator if kind == "legacy" else CardanoIcarusSeedGenerator)(m).Generate())
 
 
-IMPL = {"kholawderive": _kholawderive, "byronaddr": _byronaddr, "shelley": _shelley, "adaseed": _adaseed,
+IMPL = {"kholawraw": _kholawraw, "byrondec": lambda a: hx(__import__("bip_utils").AdaByronAddrDecoder.DecodeAddr(untx(a))), "kholawderive": _kholawderive, "byronaddr": _byronaddr, "shelley": _shelley, "adaseed": _adaseed,
         "byronrecover": lambda seed, addr: nats(CardanoByronLegacy.FromSeed(unhx(seed)).HdPathFromAddress(untx(addr)).ToList())}
 ORACLE_MISS_OK = False
+
+
+ORACLE_MISS_OPS = ("byrondec",)     # the Byron model covers the canonical CBOR shapes; outside them only the error family is checked
+
+
+def equiv(case, impl_reply, model_reply):
+    return case.op == "byrondec" and model_reply.startswith("err OracleMiss") and (impl_reply.startswith("ok") or impl_reply == "err Value")
 
 
 def gen(rng, tier):
@@ -112,6 +132,16 @@ def gen(rng, tier):
                 yield Case("byronaddr", [hx(seed), 0, 1], "byron-master-rounds-%d" % w)
         if len(got_rounds) == len(want_rounds):
             break
+    # hand-supplied parents whose left half sits at the edges of the range (2^255 is where libsodium's scalar range ends): the child is
+    # refused or is the one the public-only parent derives, on both sides
+    for kl in (2**255 - 8, 2**255 - 2**200, 2**255 - 2**227 - 8, 2**255 - 2**227 + 8, 2**254, 2**254 + 2**253, 2**255, 2**255 + 8, 2**256 - 8, 8, 0, rng.getrandbits(255) & ~7):
+        kr, cc = bytes(rng.randrange(256) for _ in range(32)), bytes(rng.randrange(256) for _ in range(32))
+        for idx in (0, 1, 2**31 - 1, 2**31):
+            yield Case("kholawraw", [hx(kl.to_bytes(32, "little") + kr), hx(cc), nats([idx]), 1], "raw-parent-edge")
+            if idx < 2**31:
+                yield Case("kholawraw", [hx(kl.to_bytes(32, "little") + kr), hx(cc), nats([idx]), 0], "raw-parent-edge-public")
+    from harness.props.c10 import byron_cases       # valid Byron addresses, their mutation stream, re-spelled checksum fields
+    yield from byron_cases(rng, tier)
     from harness.canon import kholaw_long_round_seeds
     for t, s in kholaw_long_round_seeds(rng, (6, 9, 11) if tier == "quick" else (6, 9, 10, 11, 12, 13, 14), 12000 if tier == "quick" else 120000):
         yield Case("kholawderive", ["kholaw", hx(s), nats([0x80000000, 1]), 2], "ledger-master-links-%d" % t)
